@@ -486,4 +486,4 @@ def run(ctx):
             'per-pseudo-op path evaluation of the assembler loop, and a '
             'three-slot symbolic window over QvmCode.optimize that tracks '
             'index shifts of deletions. Does not decide behavioural '
-            'equality of differently optimised windows.')
+            'equality of differently optimised windows. Also: sections 1-3 are never derived from the instruction list; optimised code with statement-boundary markers in the gaps of a window behaves like the optimised code without them (windows of <= 3 instructions, compared on the CPU handlers).')
